@@ -63,4 +63,89 @@ theorem example_interleaving :
       [⟨0,1,⟨0,0⟩,2,true,0,0⟩, ⟨0,1,⟨0,0⟩,2,false,0,0⟩] := .take _ _ [] [[]] _ h2
   exact .take _ [] [[⟨0,1,⟨0,0⟩,2,true,0,0⟩, ⟨0,1,⟨0,0⟩,2,false,0,0⟩]] [] _ h1
 
+/-! ## a thread that never enabled the profiler contributes nothing (profiler object level) -/
+section never_enabled
+open LPVerif.Prof
+
+/-- does the operation (try to) install tracing in thread `t`? -/
+def enablesThread (t : Nat) : Op → Bool
+  | .enable t' => t' == t
+  | .enableBC t' => t' == t
+  | _ => false
+
+theorem tracing_stays_off (s : Prof.St) (op : Op) (t : Nat) (h : s.tracing t = false) (hop : enablesThread t op = false) :
+    (s.step op).tracing t = false := by
+  cases op with
+  | decl f code => exact h
+  | add f =>
+    simp only [Prof.St.step, Prof.St.addFunction]
+    split
+    · unfold Prof.St.addCode; simp only; exact h
+    · exact h
+  | enableBC t' =>
+    have hne : ¬ t = t' := by
+      intro e; subst e; simp [enablesThread] at hop
+    simp only [Prof.St.step, Prof.St.enableByCount, Prof.St.enable]
+    by_cases hc : s.count t' = 0
+    · simp only [hc, if_true, Prof.St.setCount, hne, if_false]; exact h
+    · simp only [hc, if_false, Prof.St.setCount]; exact h
+  | disableBC t' =>
+    simp only [Prof.St.step, Prof.St.disableByCount]
+    split
+    · split
+      · simp only [Prof.St.disable, Prof.St.setCount]
+        by_cases e : t = t'
+        · simp [e]
+        · simp only [e, if_false]; exact h
+      · exact h
+    · exact h
+  | enable t' =>
+    have hne : ¬ t = t' := by
+      intro e; subst e; simp [enablesThread] at hop
+    simp only [Prof.St.step, Prof.St.enable, hne, if_false]; exact h
+  | disable t' =>
+    simp only [Prof.St.step, Prof.St.disable]
+    by_cases e : t = t'
+    · simp [e]
+    · simp only [e, if_false]; exact h
+  | ev e =>
+    simp only [Prof.St.step, Prof.St.event]
+    split <;> exact h
+
+/-- is the operation a trace event of thread `t`? -/
+def isEventOf (t : Nat) : Op → Bool
+  | .ev e => e.t == t
+  | _ => false
+
+/-- **a thread that never enabled the profiler contributes nothing**: whatever it executes — profiled code included, at any
+    point of any history — the profiler ends in exactly the state it would have reached without that thread's events -/
+theorem thread_never_enabled_inert (ops : List Op) (s : Prof.St) (t : Nat) (h : s.tracing t = false)
+    (hops : ∀ op ∈ ops, enablesThread t op = false) :
+    s.run ops = s.run (ops.filter (fun op => !isEventOf t op)) := by
+  induction ops generalizing s with
+  | nil => rfl
+  | cons op r ih =>
+    have hr : ∀ o ∈ r, enablesThread t o = false := fun o ho => hops o (List.mem_cons_of_mem _ ho)
+    have hop := hops op (List.mem_cons_self ..)
+    simp only [Prof.St.run, List.foldl_cons, List.filter_cons] at ih ⊢
+    by_cases hev : isEventOf t op = true
+    · -- an event of `t`: delivered nowhere
+      cases op with
+      | ev e =>
+        have het : e.t = t := by simpa [isEventOf] using hev
+        have hinert : s.step (.ev e) = s := LPVerif.Props.C01.untraced_inert s e (by rw [het]; exact h)
+        simp only [hev, Bool.not_true, Bool.false_eq_true, if_false, hinert]
+        exact ih s h hr
+      | decl _ _ => simp [isEventOf] at hev
+      | add _ => simp [isEventOf] at hev
+      | enableBC _ => simp [isEventOf] at hev
+      | disableBC _ => simp [isEventOf] at hev
+      | enable _ => simp [isEventOf] at hev
+      | disable _ => simp [isEventOf] at hev
+    · have hev' : isEventOf t op = false := by simpa using hev
+      simp only [hev', Bool.not_false, if_true, List.foldl_cons]
+      exact ih (s.step op) (tracing_stays_off s op t h hop) hr
+
+end never_enabled
+
 end LPVerif.Props.C13
